@@ -1040,6 +1040,16 @@ func (s *v4Server) handleRequest(req, resp *dhcpv4.DHCPv4) (lease *dhcpsvc.Lease
 	s.leasesLock.Lock()
 	defer s.leasesLock.Unlock()
 
+	// The lock has been released since the lease was found.  Make sure that
+	// the lease is still in the table and still belongs to the client, since
+	// in the meantime it could have been recycled for another client or
+	// replaced by a static lease.  Don't acknowledge it otherwise.
+	if !bytes.Equal(lease.HWAddr, req.ClientHWAddr) || !slices.Contains(s.leases, lease) {
+		log.Debug("dhcpv4: lease %s for %s is gone", lease.IP, req.ClientHWAddr)
+
+		return nil, true
+	}
+
 	if lease.IsStatic {
 		if lease.Hostname != "" {
 			// TODO(e.burkov):  This option is used to update the server's DNS
